@@ -11,38 +11,49 @@ Oracle (structural, written from the statement):
     has the edge block -> leaf; other leaves (register, memory, arithmetic) need no edge
     [weakened on purpose, DESIGN C14]
   * every ExprId is a register of the architecture (regs.all_regs_ids) or IRDst
-"Reported unsupported": NotImplementedError, or KeyError(<mnemonic>) / ValueError raised by the
-mnemonic dispatch frame (get_ir / get_mnemo_expr of the arch's sem.py).  Any other exception is a
-crash of a semantic function.
+"Reported unsupported": NotImplementedError; KeyError(<mnemonic>) / ValueError raised by the
+mnemonic dispatch frame (get_ir / get_mnemo_expr of the arch's sem.py); or any non-assertion
+exception whose message says so ("not implemented", "need implementing", "not supported": PPC
+raises RuntimeError for LSWI/STSWI...).  Any other exception is a crash of a semantic function.
+Thumb IT is lifted together with synthesised benign followers (the lifter needs the IT block).
 """
+import random
 import re
 import traceback
 
 from vf import common
+from vf.models import cpulimit
 from vf.models import insn_corpus as ic
 
 CHECK = dict(
     id="C14", level="exploration",
-    rule=("16-byte candidates from the shared instruction corpus (random bytes, stratified opcode "
+    rule=("16-byte candidates from the shared instruction corpus: a seed-independent walk over every class of "
+          "each decoder table (fixed prefix classes x ModRM forms on x86) plus seed-dependent random bytes, stratified opcode "
           "enumeration, decoder-table templates with random free fields, curated vectors of "
           "test/arch with bit flips) decoded by mn.dis at a random aligned address in every "
           "arch/mode, then lifted; distinct = distinct (arch/mode, mnemonic, operand kinds); "
           "non-trivial = decoded and lifted or classified"),
     assumptions=["the structural reading of the statement in the module docstring",
                  "IRDst leaves that are not locations/constants (indirect jumps) need no edge",
-                 "'unsupported' = NotImplementedError, or KeyError(mnemonic)/ValueError from the dispatch frame"],
+                 "'unsupported' = NotImplementedError, KeyError(mnemonic)/ValueError from the dispatch frame, "
+                 "or an exception whose message says not implemented / not supported"],
     timeout={"quick": 900, "thorough": 3400},
     exhaustive={"quick": False, "thorough": False},
     technique="runtime monitoring: structural monitor on the IRCFG produced for each decoded instruction",
 )
 
-PER_ARCH = {"quick": 3000, "thorough": 200000}
+# seed-dependent candidates per arch/mode (on top of the seed-independent table walk)
+PER_ARCH = {"quick": 1000, "thorough": 3000}
+WALK_ROUNDS = {"quick": 1, "thorough": 2}
 NSHARDS = 16
 
 
 def shards(tier, seed, scale):
-    per = max(20, int(PER_ARCH[tier] * scale / NSHARDS))
-    return common.mk_shards(NSHARDS, seed, tier, per_shard=per, scale=1.0)
+    per = max(10, int(PER_ARCH[tier] * scale / NSHARDS))
+    # development aid: --scale < 1 also thins the walk (stride)
+    stride = 1 if scale >= 1 else max(1, int(round(1 / scale)))
+    return common.mk_shards(NSHARDS, seed, tier, per_shard=per, scale=1.0,
+                            walk_rounds=WALK_ROUNDS[tier], walk_stride=stride)
 
 
 DISPATCH_FUNCS = ("get_ir", "get_mnemo_expr")
@@ -70,7 +81,14 @@ def classify_exception(instr, exc, tb):
                 return "unsupported", None
             if isinstance(exc, ValueError):
                 return "unsupported", None
-    return "crash", where
+    # the semantic function that crashes = innermost frame of an arch's sem.py that is not the dispatcher
+    semfunc = None
+    for fr in reversed(frames):
+        if fr.filename.endswith("sem.py") and "/arch/" in fr.filename and \
+                fr.name not in DISPATCH_FUNCS + ("<module>", "instr2ir"):
+            semfunc = fr.name
+            break
+    return "crash", (where, semfunc)
 
 
 def irdst_leaves(expr):
@@ -196,7 +214,7 @@ def lift_one(spec, data, addr, instr, rec, regset, rng):
             block = AsmBlock(loc_db, loc_db.get_or_create_offset_location(addr))
             block.lines = lines
             lifter.add_asmblock_to_ircfg(block, ircfg)
-    except common.CaseTimeout:
+    except cpulimit.CpuTimeout:
         raise
     except Exception as exc:
         import sys
@@ -206,15 +224,18 @@ def lift_one(spec, data, addr, instr, rec, regset, rng):
             rec.count("unsupported:%s" % type(exc).__name__)
             return []
         rec.count("%s:crash" % spec.name)
-        return [("crash:%s" % type(exc).__name__,
-                 "lifting raises %s(%s) in %s" % (type(exc).__name__, common.short(exc, 200), where))]
+        where, semfunc = where
+        kind = "crash:%s" % type(exc).__name__
+        if semfunc:
+            kind = "sem:%s %s" % (semfunc, kind)
+        return [(kind, "lifting raises %s(%s) in %s" % (type(exc).__name__, common.short(exc, 200), where))]
     rec.count("%s:lifted" % spec.name)
 
     def fail(kind, what):
         fails.append((kind, what))
     try:
         nb = monitor(spec, lifter, ircfg, instr, regset, fail)
-    except common.CaseTimeout:
+    except cpulimit.CpuTimeout:
         raise
     except Exception as exc:
         fails.append(("monitor_crash:%s" % type(exc).__name__, "walking the IR raises %r" % (exc,)))
@@ -244,7 +265,8 @@ def random_addr(spec, rng):
 
 def run_shard(params, rec):
     common.quiet()
-    common.install_case_timer()
+    ic.enable_pycache()
+    cpulimit.install()
     rng = common.rng_for(params)
     n = params["n"]
     for spec in ic.SPECS:
@@ -252,19 +274,16 @@ def run_shard(params, rec):
             continue
         regset = set(spec.mn.regs.all_regs_ids)
         regset.add(spec.lifter_cls(__import__("miasm.core.locationdb", fromlist=["LocationDB"]).LocationDB()).IRDst)
-        corpus = ic.Corpus(spec, rng, index=params["seed"] * 64 + params["shard"])
-        done = tries = 0
-        while done < n and tries < 6 * n:
-            tries += 1
-            data, origin = corpus.next()
-            addr = random_addr(spec, rng)
+        walk = (params["shard"], params["nshards"], params.get("walk_rounds", 1), params.get("walk_stride", 1))
+        for data, origin in ic.stream(spec, rng, params["seed"] * 64 + params["shard"], n, walk):
+            # walk candidates get an address derived from their bytes (seed-independent)
+            addr = random_addr(spec, random.Random(data) if origin == "walk" else rng)
             instr, err = ic.decode(spec, data, addr)
             if instr is None:
                 rec.count("%s:undecodable" % spec.name)
                 if err not in ("Disasm_Exception", "IOError", "no_instr"):
                     rec.count("dis_raises:%s:%s" % (spec.family, err))
                 continue
-            done += 1
             rec.ev()
             rec.count("%s:decoded" % spec.name)
             rec.count("origin:" + origin)
@@ -277,9 +296,9 @@ def run_shard(params, rec):
             except Exception:
                 pass
             try:
-                with common.time_limit(20):
+                with cpulimit.cpu_limit(20):
                     fails = lift_one(spec, data, addr, instr, rec, regset, rng)
-            except common.CaseTimeout:
+            except cpulimit.CpuTimeout:
                 rec.count("case_timeout")
                 continue
             if fails is None:
@@ -288,9 +307,9 @@ def run_shard(params, rec):
                 rec.sample(dict(arch=spec.name, bytes=ic.hexs(instr.b), addr=addr, text=text))
             seen = set()
             for kind, what in fails:
-                if kind.startswith("foreign_identifier:"):
-                    # mechanism = the decoder hands out a register the architecture does not declare;
-                    # independent of the mnemonic
+                if kind.startswith(("foreign_identifier:", "sem:")):
+                    # mechanism = the decoder hands out a register the architecture does not declare
+                    # / the semantic function that crashes (shared by several mnemonics)
                     key = "%s %s" % (spec.family, kind)
                 else:
                     key = "%s %s %s" % (spec.family, name, kind)
